@@ -242,11 +242,26 @@ func (c *Decoder) decodeSubroutineDeclaration() (*ast.SubroutineDeclaration, err
 	if sub.Name, err = c.decodeIdent(c.nextFrame()); err != nil {
 		return nil, errors.WithStack(err)
 	}
-	// Functional subroutine has return type ident
-	if c.peekFrameIs(IDENT_VALUE) {
-		if sub.ReturnType, err = c.decodeIdent(c.nextFrame()); err != nil {
+	// Idents between the name and the block are the return type (functional
+	// subroutine) followed by (type, name) pairs of the parameters:
+	// an odd number of idents means that the return type is present.
+	var idents []*ast.Ident
+	for c.peekFrameIs(IDENT_VALUE) {
+		ident, err := c.decodeIdent(c.nextFrame())
+		if err != nil {
 			return nil, errors.WithStack(err)
 		}
+		idents = append(idents, ident)
+	}
+	if len(idents)%2 == 1 {
+		sub.ReturnType = idents[0]
+		idents = idents[1:]
+	}
+	for i := 0; i+1 < len(idents); i += 2 {
+		sub.Parameters = append(sub.Parameters, &ast.SubroutineParameter{
+			Type: idents[i],
+			Name: idents[i+1],
+		})
 	}
 
 	if !c.peekFrameIs(BLOCK_STATEMENT) {
